@@ -122,7 +122,8 @@ Mod64(x) == Norm([i \in 1..(IF Len(x) < 6 THEN Len(x) ELSE 6) |-> IF i = 6 THEN 
 Val(v) == IF v.k < 0 THEN (IF v.d < 0 THEN [neg |-> TRUE, mag |-> FromNat(-v.d)] ELSE [neg |-> FALSE, mag |-> FromNat(v.d)])
           ELSE [neg |-> FALSE, mag |-> IF v.d >= 0 THEN Add(Pow2(v.k), FromNat(v.d)) ELSE Sub(Pow2(v.k), FromNat(-v.d))]
 MaxInt == Sub(Pow2(IntBits), One)
-InRange(x) == x.neg \/ ~Gt(x.mag, MaxInt)                    \* representable as a Go int (negative classes are small)
+MinIntMag == Pow2(IntBits)                                   \* |math.MinInt| = 2^IntBits
+InRange(x) == IF x.neg THEN ~Gt(x.mag, MinIntMag) ELSE ~Gt(x.mag, MaxInt)   \* representable as a Go int: MinInt..MaxInt
 LeC(x, c) == x.neg \/ ~Gt(x.mag, FromNat(c))                 \* x <= c for a small natural c
 C(n) == FromNat(n)
 MaxInt128 == Div(MaxInt, C(128))      \* maxInt/128
